@@ -25,7 +25,7 @@ ASSUMPTIONS = ['exact-arithmetic model compared under rtol 1e-9', 'mahalanobis w
                'engine (no deterministic model): such inputs are not generated']
 METHODS = ['euclidean', 'correlation', 'mahalanobis', 'poisson', 'crossnobis', 'poisson_cv']
 MIDX = {'euclidean': 0, 'correlation': 1, 'mahalanobis': 2, 'crossnobis': 2, 'poisson': 3, 'poisson_cv': 3}
-LABS = ['dog', 'ant', 'cow', 'bee']
+LABS = ['ox', 'horse', 'cat', 'sparrow']      # of different lengths (seeded change C15-m10: labels cut to the length of the first)
 
 
 def generate(rng, tier):
